@@ -13,6 +13,9 @@ CONSTANTS
   AllowOrphan = FALSE
   AllowPoison = FALSE
   AllowFail = FALSE
+  AllowNoop = TRUE
+  BootAll = FALSE
+  ActWeight = 1
 INVARIANTS Frontier Convergence LazyMergeEquiv NoParallelFinalizeCommitted HelloSound Emit
 PROPERTIES AppendOnly
 CONSTRAINT NotDone
